@@ -106,6 +106,13 @@ func (r *histRunner) doGCPark(op *Op) error {
 						r.label("transient_read_during_relocation")
 						e = nil
 					}
+				case "dumphints":
+					// one round of the periodic hint dumper while the pass is under way
+					e = r.doDumpHints()
+					r.label("dumper_round_during_gc")
+					if e == nil {
+						continue
+					}
 				default:
 					continue
 				}
@@ -156,7 +163,7 @@ func genPlacement(t *rapid.T, c *Cfg, p *genProfile) Placement {
 		"gc.rec.hinted", "gc.src.begin", "gc.src.cleared", "gc.dst.switch"}).Draw(t, "point")
 	pl.Nth = rapid.IntRange(1, 6).Draw(t, "nth")
 	pl.Cancel = rapid.IntRange(0, 9).Draw(t, "cancel") == 0
-	kinds := []string{"set", "set", "set", "delete", "get"}
+	kinds := []string{"set", "set", "set", "set", "delete", "get", "dumphints"}
 	inGrp := make([]bool, len(c.Keys))
 	gen := rapid.Custom(func(t *rapid.T) Op { return genOp(t, c, p, kinds, inGrp) })
 	pl.Ops = rapid.SliceOfN(gen, 1, 4).Draw(t, "ops")
@@ -201,3 +208,34 @@ var c05GCTraffic = &histCheck{
 func TestVerif_C05_GCTraffic(t *testing.T) { c05GCTraffic.check(t) }
 
 func init() { c05GCTraffic.register() }
+
+// Same check over key pools with forced hash-collision groups: GC with hint merging promises to tell colliding keys
+// apart also when one of them is written while the pass is under way ("key1 is set before gc, and key2 after that",
+// gc.go BeforeBucket). Oracle relaxations for colliding keys are those of C13 (versions not compared; the listed
+// C13 findings are excluded by their predicates).
+var c05GCCollide = &histCheck{
+	property: "C05",
+	name:     "TestVerif_C05_GCTrafficCollide",
+	profile: func() *genProfile {
+		p := c05GCTraffic.profile()
+		p.groups = true
+		p.maxKeys = 6
+		p.noExplicit = true
+		return p
+	},
+	postGen: func(t *rapid.T, h *History) {
+		c05GCTraffic.postGen(t, h)
+		// only passes with the merge step: without it GC cannot tell colliding keys apart (known finding C13-gc-nomerge)
+		for i := range h.Ops {
+			if h.Ops[i].Kind == "gcpark" {
+				h.Ops[i].Merge = true
+			}
+		}
+	},
+	opts:       func() runOpts { return runOpts{collisions: true} },
+	nontrivial: func(r *histRunner) bool { return r.clientWritesInGC > 0 && r.collideWrites >= 2 },
+}
+
+func TestVerif_C05_GCTrafficCollide(t *testing.T) { c05GCCollide.check(t) }
+
+func init() { c05GCCollide.register() }
